@@ -96,7 +96,7 @@ func runOne(c cfg, devs []vrt.Dev, labels bool) *explore.Exec {
 		}
 		cbs := beacon.NewCallbackStore(l, as)
 		for r := uint64(1); r <= c.H0; r++ {
-			if err := cbs.Put(ctx, fix.FakeBeacon(r, c.Chained)); err != nil {
+			if err := cbs.Put(ctx, fix.FakeBeacon(r, true)); err != nil {
 				setupErr = err
 				return
 			}
@@ -117,7 +117,7 @@ func runOne(c cfg, devs []vrt.Dev, labels bool) *explore.Exec {
 		}
 		vrt.GoNamed("appender", func() {
 			for r := c.H0 + 1; r <= c.H0+uint64(c.Appends); r++ {
-				if err := cbs.Put(ctx, fix.FakeBeacon(r, c.Chained)); err != nil {
+				if err := cbs.Put(ctx, fix.FakeBeacon(r, true)); err != nil {
 					setupErr = fmt.Errorf("append %d: %w", r, err)
 					return
 				}
